@@ -168,6 +168,7 @@ type resetReq struct {
 	Recv   string `json:"recv"`    // receiver type for methods ("" for constructors)
 	Name   string `json:"name"`    // function name
 	CtorOf string `json:"ctor_of"` // for constructors: the struct type whose composite literal is read
+	Prefix bool   `json:"prefix"`  // only the (re)initialising prefix of the body (see prefixStmts)
 }
 type request struct {
 	Dirs    []string    `json:"dirs"` // scanned recursively
@@ -189,6 +190,11 @@ func main() {
 		structs = append(structs, structFields(s))
 	}
 	out["structs"] = structs
+	var fw []any
+	for _, st := range rq.Structs {
+		fw = append(fw, fieldWrites(st))
+	}
+	out["fieldwrites"] = fw
 	var resets []any
 	for _, r := range rq.Resets {
 		resets = append(resets, resetOf(r))
@@ -291,14 +297,130 @@ func structFields(s structReq) any {
 		return map[string]any{"missing": s.Dir + "." + s.Name}
 	}
 	var fs []any
-	for i := 0; i < st.NumFields(); i++ {
-		f := st.Field(i)
-		fs = append(fs, map[string]any{
-			"name": f.Name(), "type": types.TypeString(f.Type(), func(q *types.Package) string { return q.Name() }),
-			"kind": kindOf(f.Type()), "embedded": f.Embedded(),
-		})
+	var flat func(prefix string, st *types.Struct, depth int)
+	flat = func(prefix string, st *types.Struct, depth int) {
+		for i := 0; i < st.NumFields(); i++ {
+			f := st.Field(i)
+			// a by-value struct field of a struct type declared in the same package is state of its own:
+			// flatten it (path a.b) so that each of its fields needs a reset of its own
+			if sub, ok := f.Type().Underlying().(*types.Struct); ok && depth < 4 {
+				if n, ok := f.Type().(*types.Named); ok && n.Obj().Pkg() == p.pkg && sub.NumFields() > 0 {
+					flat(prefix+f.Name()+".", sub, depth+1)
+					continue
+				}
+			}
+			fs = append(fs, map[string]any{
+				"name": prefix + f.Name(), "type": types.TypeString(f.Type(), func(q *types.Package) string { return q.Name() }),
+				"kind": kindOf(f.Type()), "embedded": f.Embedded(),
+			})
+		}
 	}
+	flat("", st, 0)
 	return map[string]any{"dir": s.Dir, "name": s.Name, "fields": fs}
+}
+
+// fieldWrites lists every syntactic write, anywhere in the package, through a
+// value of type T or *T to one of T's fields: x.f = e, x.f.g op= e, x.f[i] = e,
+// x.f++, clear(x.f), delete(x.f, k), &x.f, x.f = append(x.f, ...).
+// Each entry: [path, function, how].
+func fieldWrites(s structReq) any {
+	p, err := load(s.Dir)
+	if err != nil {
+		fail("%v", err)
+	}
+	obj := p.pkg.Scope().Lookup(s.Name)
+	if obj == nil {
+		return map[string]any{"missing": s.Dir + "." + s.Name}
+	}
+	target := obj.Type()
+	isT := func(e ast.Expr) bool {
+		tv, ok := p.info.Types[e]
+		if !ok || tv.Type == nil {
+			return false
+		}
+		t := tv.Type
+		if pt, ok := t.Underlying().(*types.Pointer); ok {
+			t = pt.Elem()
+		}
+		return types.Identical(t, target)
+	}
+	// pathOf: if e is (x.f.g...)[i]... with x of type T, return "f.g"
+	var pathOf func(e ast.Expr) (string, bool)
+	pathOf = func(e ast.Expr) (string, bool) {
+		switch x := e.(type) {
+		case *ast.SelectorExpr:
+			if isT(x.X) {
+				return x.Sel.Name, true
+			}
+			if pre, ok := pathOf(x.X); ok {
+				// only by-value struct nesting continues the path; through a pointer/map/slice it is other memory,
+				// but still reachable state of T: keep the path, callers compare by prefix
+				return pre + "." + x.Sel.Name, true
+			}
+		case *ast.IndexExpr:
+			return pathOf(x.X)
+		case *ast.SliceExpr:
+			return pathOf(x.X)
+		case *ast.StarExpr:
+			return pathOf(x.X)
+		case *ast.ParenExpr:
+			return pathOf(x.X)
+		}
+		return "", false
+	}
+	var out [][]string
+	for _, f := range p.files {
+		for _, d := range f.Decls {
+			fd, ok := d.(*ast.FuncDecl)
+			if !ok || fd.Body == nil {
+				continue
+			}
+			fname := fd.Name.Name
+			if fd.Recv != nil && len(fd.Recv.List) > 0 {
+				t := fd.Recv.List[0].Type
+				if st, ok := t.(*ast.StarExpr); ok {
+					t = st.X
+				}
+				fname = src(t) + "." + fname
+			}
+			note := func(e ast.Expr, how string) {
+				if path, ok := pathOf(e); ok {
+					out = append(out, []string{path, fname, how})
+				}
+			}
+			ast.Inspect(fd.Body, func(n ast.Node) bool {
+				switch x := n.(type) {
+				case *ast.AssignStmt:
+					if x.Tok == token.DEFINE {
+						return true
+					}
+					for _, l := range x.Lhs {
+						note(l, "assign")
+					}
+				case *ast.IncDecStmt:
+					note(x.X, "incdec")
+				case *ast.UnaryExpr:
+					if x.Op == token.AND {
+						note(x.X, "address-taken")
+					}
+				case *ast.CallExpr:
+					if id, ok := x.Fun.(*ast.Ident); ok && (id.Name == "clear" || id.Name == "delete") && len(x.Args) > 0 {
+						note(x.Args[0], id.Name)
+					}
+				}
+				return true
+			})
+		}
+	}
+	sort.Slice(out, func(i, j int) bool {
+		for k := 0; k < 3; k++ {
+			if out[i][k] != out[j][k] {
+				return out[i][k] < out[j][k]
+			}
+		}
+		return false
+	})
+	return map[string]any{"dir": s.Dir, "name": s.Name, "writes": out}
 }
 
 // ------------------------------------------------------------------ resets
@@ -354,9 +476,20 @@ func resetOf(r resetReq) any {
 		if len(fd.Recv.List[0].Names) > 0 {
 			recvName = fd.Recv.List[0].Names[0].Name
 		}
-		walkStmts(fd.Body.List, false, func(s ast.Stmt, cond bool) {
+		body := fd.Body.List
+		first := ""
+		if len(body) > 0 {
+			first = src(body[0])
+		}
+		if r.Prefix {
+			var deleg [][]string
+			body, deleg = prefixStmts(body, recvName)
+			acts = append(acts, deleg...)
+		}
+		walkStmts(body, false, func(s ast.Stmt, cond bool) {
 			acts = append(acts, stmtActs(s, recvName, cond)...)
 		})
+		return map[string]any{"dir": r.Dir, "recv": r.Recv, "name": r.Name, "acts": acts, "first_stmt": first}
 	} else {
 		// constructor: composite literal of CtorOf + assignments on the variable bound to it
 		varName := ""
@@ -423,6 +556,84 @@ func walkStmts(list []ast.Stmt, cond bool, f func(ast.Stmt, bool)) {
 	}
 }
 
+// prefixStmts returns the leading statements of a method body that only
+// (re)initialise receiver state: calls recv.M() / recv.f.M(), assignments whose
+// targets are all receiver fields, and `if recv.f != nil { recv.f.Reset(..) } else
+// { recv.f = NewX(..) }` (reported as ["delegate", f, "Reset", "uncond"]: both
+// arms leave f freshly initialised).  The prefix ends at the first other statement.
+func prefixStmts(list []ast.Stmt, recv string) ([]ast.Stmt, [][]string) {
+	var out []ast.Stmt
+	var deleg [][]string
+	for _, s := range list {
+		switch x := s.(type) {
+		case *ast.ExprStmt:
+			c, ok := x.X.(*ast.CallExpr)
+			if !ok {
+				return out, deleg
+			}
+			if _, _, ok := selOn(c.Fun, recv); !ok {
+				return out, deleg
+			}
+			// only the pure re-initialisers count; any other method call ends the prefix
+			if sel, ok := c.Fun.(*ast.SelectorExpr); !ok || sel.Sel.Name != "Reset" {
+				return out, deleg
+			}
+			out = append(out, s)
+		case *ast.AssignStmt:
+			for _, l := range x.Lhs {
+				if _, _, ok := selOn(l, recv); !ok {
+					return out, deleg
+				}
+			}
+			out = append(out, s)
+		case *ast.IfStmt:
+			f, ok := resetOrNew(x, recv)
+			if !ok {
+				return out, deleg
+			}
+			deleg = append(deleg, []string{"delegate", f, "Reset", "uncond"})
+		default:
+			return out, deleg
+		}
+	}
+	return out, deleg
+}
+
+// resetOrNew recognises `if recv.f != nil { recv.f.Reset(...) } else { recv.f = <call> }`.
+func resetOrNew(x *ast.IfStmt, recv string) (string, bool) {
+	if x.Init != nil || x.Else == nil || len(x.Body.List) != 1 {
+		return "", false
+	}
+	els, ok := x.Else.(*ast.BlockStmt)
+	if !ok || len(els.List) != 1 {
+		return "", false
+	}
+	be, ok := x.Cond.(*ast.BinaryExpr)
+	if !ok || be.Op != token.NEQ || src(be.Y) != "nil" {
+		return "", false
+	}
+	f, rest, ok := selOn(be.X, recv)
+	if !ok || len(rest) != 0 {
+		return "", false
+	}
+	es, ok := x.Body.List[0].(*ast.ExprStmt)
+	if !ok {
+		return "", false
+	}
+	c, ok := es.X.(*ast.CallExpr)
+	if !ok || src(c.Fun) != recv+"."+f+".Reset" {
+		return "", false
+	}
+	as, ok := els.List[0].(*ast.AssignStmt)
+	if !ok || len(as.Lhs) != 1 || src(as.Lhs[0]) != recv+"."+f || as.Tok != token.ASSIGN {
+		return "", false
+	}
+	if _, ok := as.Rhs[0].(*ast.CallExpr); !ok {
+		return "", false
+	}
+	return f, true
+}
+
 func selOn(e ast.Expr, recv string) (field string, rest []string, ok bool) {
 	// e = recv.f(.g)*
 	var chain []string
@@ -456,6 +667,32 @@ func stmtActs(s ast.Stmt, recv string, cond bool) [][]string {
 			f, rest, ok := selOn(l, recv)
 			if !ok {
 				continue
+			}
+			// recv.f = T{k: v, ...}: every named sub-field gets its own act, all others are zeroed
+			if x.Tok == token.ASSIGN && len(x.Lhs) == len(x.Rhs) && len(rest) == 0 {
+				if cl, ok := x.Rhs[i].(*ast.CompositeLit); ok && len(cl.Elts) > 0 {
+					allKV := true
+					for _, el := range cl.Elts {
+						if _, ok := el.(*ast.KeyValueExpr); !ok {
+							allKV = false
+						}
+					}
+					if allKV {
+						for _, el := range cl.Elts {
+							kv := el.(*ast.KeyValueExpr)
+							sub := src(l) + "." + src(kv.Key)
+							h := "assign"
+							if sl, ok := kv.Value.(*ast.SliceExpr); ok && src(sl.X) == sub && sl.Low == nil && sl.High != nil && src(sl.High) == "0" {
+								h = "truncate"
+							} else if mentions(kv.Value, src(l)) {
+								h = "update"
+							}
+							out = append(out, []string{"sub", f, src(kv.Key), condTag(cond), h})
+						}
+						out = append(out, []string{"litzero", f, "", condTag(cond)})
+						continue
+					}
+				}
 			}
 			how := "assign"
 			if x.Tok != token.ASSIGN {
